@@ -2,6 +2,7 @@ import PGM.Driver.C14
 import PGM.Driver.C15
 import PGM.Driver.C12
 import PGM.Driver.C01
+import PGM.Driver.C04
 /-!
 Line-protocol driver: one JSON request per input line, one JSON response per output line.
 Run with `lake env lean --run Main.lean` or as the compiled `pgmdriver`.
@@ -20,6 +21,7 @@ def dispatch (req : Json) : Except String Json := do
   | "gm_datavector" => handleGMDatavector req
   | "krondot" => handleKrondot req
   | "many" => handleMany req
+  | "loss" => handleLoss req
   | _ => throw s!"unknown op {op}"
 
 def respond (line : String) : String :=
